@@ -96,18 +96,43 @@ impl Tp {
     }
 }
 
+/// What the response buffer holds before every call. The I/O providers reuse
+/// one buffer for all requests of a thread or connection, so its previous
+/// contents are arbitrary; octets that look like the first octet of a forward
+/// compression pointer make any read of unwritten buffer contents loud
+/// (zeroes would read as a harmless root label).
+pub const RESP_POISON: u8 = 0xc1;
+
 thread_local! {
-    static RESP_BUF: std::cell::RefCell<Vec<u8>> = std::cell::RefCell::new(vec![0u8; 65535]);
+    static RESP_BUF: std::cell::RefCell<Vec<u8>> = std::cell::RefCell::new(vec![RESP_POISON; 65535]);
 }
 
 /// Calls `Server::handle_message` with a 65 535-octet response buffer (always
-/// large enough for either transport) under `catch_unwind`.
+/// large enough for either transport) under `catch_unwind`. The buffer is
+/// pre-filled with `RESP_POISON` (restored after every call over the part a
+/// response of that size can have touched, so that a case replays alike).
 /// Ok(None) = no response; Ok(Some(octets)) = response; Err(msg) = panic.
 pub fn handle<C: quandary::db::Catalog>(server: &Server<C>, req: &[u8], src: IpAddr, tp: Tp) -> Result<Option<Vec<u8>>, String> {
     RESP_BUF.with(|b| {
         let mut b = b.borrow_mut();
         let info = ReceivedInfo::new(src, if tp == Tp::Udp { Transport::Udp } else { Transport::Tcp });
         let buf: &mut [u8] = &mut b[..];
+        let r = handle_in(server, req, info, buf);
+        let touched = match &r {
+            Ok(Some(v)) => v.len(),
+            _ => 0,
+        }
+        .max(req.len())
+        .max(512)
+            + 1024;
+        let end = touched.min(buf.len());
+        buf[..end].fill(RESP_POISON);
+        r
+    })
+}
+
+fn handle_in<C: quandary::db::Catalog>(server: &Server<C>, req: &[u8], info: ReceivedInfo, buf: &mut [u8]) -> Result<Option<Vec<u8>>, String> {
+    {
         match catch(|| server.handle_message(req, info, buf)) {
             Ok(Response::Single(n)) => {
                 if n > buf.len() {
@@ -118,7 +143,7 @@ pub fn handle<C: quandary::db::Catalog>(server: &Server<C>, req: &[u8], src: IpA
             Ok(Response::None) => Ok(None),
             Err(p) => Err(p),
         }
-    })
+    }
 }
 
 pub fn localhost() -> IpAddr {
